@@ -113,6 +113,25 @@ def run(ctx):
     owners = set(o for o, b, bi in call_sites(prog, STREAMER + 'on_allocation_finished') if not is_test_util(o))
     ctx.ob('R18.2', 'finished|emitters', owners == {SYNC, ISEC}, f'on_allocation_finished emitted only by the two status writers (observed {sorted(x.split("::")[-1] for x in owners)})', None)
 
+    # connected / lost worker sets
+    ctx.rule('R18.6', 'worker accounting: a connect under Running inserts into connected_workers; a loss under Running removes from connected_workers and records the lost worker')
+    SETI = {'hashbrown::set::HashSet::insert', 'std::collections::hash::set::HashSet::insert'}
+    SETR = {'hashbrown::set::HashSet::remove', 'std::collections::hash::set::HashSet::remove'}
+    def set_calls(cs, field):
+        return [bi for bi in sy.call_blocks(cs) if field in local_field_sources(sy, op_local(sy.term[bi]['args'][0]), through_mutation=False)]
+    ins = set_calls(SETI, 'connected_workers')
+    rem = set_calls(SETR, 'connected_workers')
+    dwb = prog.find_bodies(r'DisconnectedWorkers::add_lost_worker$')
+    alw = sy.call_blocks(dwb[0].path) if dwb else []
+    def cell(bi):
+        return (tuple(sorted(variants_at(sy, ASR, bi) or [])), tuple(sorted(variants_at(sy, AS, bi) or [])))
+    ctx.ob('R18.6', 'connect under Running -> connected_workers.insert', any(cell(x) == (('WorkedConnected',), ('Running',)) for x in ins), f'a further worker of a running allocation is added to connected_workers (cells {[cell(x) for x in ins]})', sy.loc(ins[0]) if ins else sy.loc())
+    ctx.ob('R18.6', 'loss under Running -> connected_workers.remove', any(cell(x) == (('WorkerLost',), ('Running',)) for x in rem), f'a lost worker leaves connected_workers (cells {[cell(x) for x in rem]})', sy.loc(rem[0]) if rem else sy.loc())
+    ctx.ob('R18.6', 'loss under Running -> add_lost_worker', any(cell(x) == (('WorkerLost',), ('Running',)) for x in alw), 'a lost worker is recorded in disconnected_workers', sy.loc(alw[0]) if alw else sy.loc())
+    for x in ins + rem + alw:
+        c_ = cell(x)
+        ctx.ob('R18.6', f'worker sets touched only while Running|{c_[0]}', c_[1] == ('Running',), f'worker sets are modified only for a Running allocation (observed {c_})', sy.loc(x))
+    # first worker: the Queued->Running write carries the connecting worker
     # ---- R18.3
     finish_test(ctx, 'R18.3')
 
